@@ -135,6 +135,15 @@ func decodeDict(buf []byte, ss *cffStrings) (cffDict, error) {
 	return res, nil
 }
 
+// dictNumber returns x as an int32 if this is possible without loss of
+// precision, and as a float64 otherwise.
+func dictNumber(x float64) interface{} {
+	if i := int32(x); float64(i) == x {
+		return i
+	}
+	return x
+}
+
 func (d cffDict) encode(ss *cffStrings) []byte {
 	keys := d.sortedKeys()
 
